@@ -85,7 +85,14 @@ pub fn write_dso_debug_stream(
         .get_program_header_address()
         .ok_or(SectionDsoDebugError::CouldNotFind("AT_PHDR in auxv"))? as usize;
 
-    let ph = PtraceDumper::copy_from_process(blamed_thread, phdr, SIZEOF_PHDR * phnum_max)?;
+    let ph_len = SIZEOF_PHDR
+        .checked_mul(phnum_max)
+        .ok_or(SectionDsoDebugError::CouldNotFind("sane AT_PHNUM in auxv"))?;
+    let ph = PtraceDumper::copy_from_process(blamed_thread, phdr, ph_len)?;
+    if ph.len() != ph_len {
+        // short read: the program headers are not all readable
+        return Err(SectionDsoDebugError::CouldNotFind("readable program headers"));
+    }
     let program_headers;
     #[cfg(target_pointer_width = "64")]
     {
@@ -108,7 +115,9 @@ pub fn write_dso_debug_stream(
         // Adjust base address with the virtual address of the PT_LOAD segment
         // corresponding to offset 0
         if ph.p_type == goblin::elf::program_header::PT_LOAD && ph.p_offset == 0 {
-            base -= ph.p_vaddr as usize;
+            base = base
+                .checked_sub(ph.p_vaddr as usize)
+                .ok_or(SectionDsoDebugError::CouldNotFind("sane PT_LOAD p_vaddr"))?;
         }
         if ph.p_type == goblin::elf::program_header::PT_DYNAMIC {
             dyn_addr = ph.p_vaddr;
@@ -121,7 +130,9 @@ pub fn write_dso_debug_stream(
         ));
     }
 
-    dyn_addr += base as ElfAddr;
+    dyn_addr = dyn_addr
+        .checked_add(base as ElfAddr)
+        .ok_or(SectionDsoDebugError::CouldNotFind("sane PT_DYNAMIC p_vaddr"))?;
 
     let dyn_size = std::mem::size_of::<goblin::elf::Dyn>();
     let mut r_debug = 0usize;
@@ -133,7 +144,9 @@ pub fn write_dso_debug_stream(
     loop {
         let dyn_data = PtraceDumper::copy_from_process(
             blamed_thread,
-            dyn_addr as usize + dynamic_length,
+            (dyn_addr as usize)
+                .checked_add(dynamic_length)
+                .ok_or(SectionDsoDebugError::CouldNotFind("end of the dynamic section"))?,
             dyn_size,
         )?;
         dynamic_length += dyn_size;
@@ -141,7 +154,10 @@ pub fn write_dso_debug_stream(
         // goblin::elf::Dyn doesn't have padding bytes
         let (head, body, _tail) = unsafe { dyn_data.align_to::<goblin::elf::Dyn>() };
         assert!(head.is_empty(), "Data was not aligned");
-        let dyn_struct = &body[0];
+        // a short read leaves no complete entry
+        let dyn_struct = body
+            .first()
+            .ok_or(SectionDsoDebugError::CouldNotFind("complete dynamic entry"))?;
 
         let debug_tag = goblin::elf::dynamic::DT_DEBUG;
         if dyn_struct.d_tag == debug_tag {
@@ -165,12 +181,16 @@ pub fn write_dso_debug_stream(
     // goblin::elf::Dyn doesn't have padding bytes
     let (head, body, _tail) = unsafe { debug_entry_data.align_to::<RDebug>() };
     assert!(head.is_empty(), "Data was not aligned");
-    let debug_entry = &body[0];
+    let debug_entry = body
+        .first()
+        .ok_or(SectionDsoDebugError::CouldNotFind("complete r_debug"))?;
 
     // Count the number of loaded DSOs
     let mut dso_vec = Vec::new();
     let mut curr_map = debug_entry.r_map;
-    while curr_map != 0 {
+    // A corrupted (cyclic) list must not keep us here forever.
+    let mut visited = std::collections::HashSet::new();
+    while curr_map != 0 && visited.insert(curr_map) {
         let link_map_data = PtraceDumper::copy_from_process(
             blamed_thread,
             curr_map,
@@ -180,7 +200,9 @@ pub fn write_dso_debug_stream(
         // LinkMap is repr(C) and doesn't have padding bytes, so this should be safe
         let (head, body, _tail) = unsafe { link_map_data.align_to::<LinkMap>() };
         assert!(head.is_empty(), "Data was not aligned");
-        let map = &body[0];
+        let map = body
+            .first()
+            .ok_or(SectionDsoDebugError::CouldNotFind("complete link_map"))?;
 
         curr_map = map.l_next;
         dso_vec.push(map.clone());
